@@ -111,7 +111,9 @@ func c13RunBucket(c c13Case, log *[]string) (viol string, nontrivial bool, class
 	h := &c13Host{}
 	// Wait() has no cancellation: whatever the verdict, release every remaining waiter before leaving the bubble
 	defer func() { c13Drain(tb); time.Sleep(time.Second); synctest.Wait() }()
-	say := func(f string, a ...any) { *log = append(*log, fmt.Sprintf("t=%.2fs ", time.Since(start).Seconds())+fmt.Sprintf(f, a...)) }
+	say := func(f string, a ...any) {
+		*log = append(*log, fmt.Sprintf("t=%.2fs ", time.Since(start).Seconds())+fmt.Sprintf(f, a...))
+	}
 	minRate := math.Min(minRefillRate, c.Rate)
 	inspect := func(after string) string {
 		tb.mu.Lock()
@@ -407,7 +409,9 @@ func c13RunManager(c c13Case, log *[]string) (viol string, nontrivial bool, clas
 		synctest.Wait()
 	}()
 	name := func(i int) string { return fmt.Sprintf("h%d.example.com", i) }
-	say := func(f string, a ...any) { *log = append(*log, fmt.Sprintf("t=%.2fs ", time.Since(start).Seconds())+fmt.Sprintf(f, a...)) }
+	say := func(f string, a ...any) {
+		*log = append(*log, fmt.Sprintf("t=%.2fs ", time.Since(start).Seconds())+fmt.Sprintf(f, a...))
+	}
 	multi := map[int]bool{}
 	hadFailure := false
 	for _, ev := range c.Events {
